@@ -81,6 +81,10 @@ func URLParts(uri, scheme, user string, hasUser bool, hostport, rest string)
 // explored).
 func NewStream() io.ReadWriteCloser
 
+// NewPipe returns one direction of an in-process connection: writes append whole
+// messages, reads block until a message (or Close) arrives.
+func NewPipe() io.ReadWriteCloser
+
 // JSONArgs builds a JSON-RPC params payload of the given shape: a JSON array
 // (or, with isArray=false, a non-array value) whose positions have the JSON
 // kinds "string", "number", "bool", "object", "array" or "null".
